@@ -90,8 +90,9 @@ func shortTextHint(text []rune, maxWidth, fontSize pr.Float) []rune {
 		if spaceIndex := indexRune(text, ' '); spaceIndex != -1 {
 			cut = spaceIndex + 2 // index + space + one letter
 		}
-	} else {
-		cut = int(maxWidth / fontSize * 2.5)
+	} else if hint := maxWidth / fontSize * 2.5; hint < pr.Float(len(text)) {
+		// (a huge width overflows the integer conversion)
+		cut = int(hint)
 	}
 
 	if cut > len(text) {
